@@ -6,6 +6,8 @@ Driver ops of C12 (model side of harness/rt/outbuf.go, outbuf_call.go):
                           programs of sendError's steps; further arguments are the
                           harness's generating parameters and are ignored); kind nats = `callNats`
   c12send <req> <kind> <q> …   `sendOnly` (Oneway: kinds nats/http/loop; Publish: natspub/stomp/looppub)
+  c12seq - <kind> <L> <steps>    `runSeq` (registration across a sequence of requests on one transport)
+  c12g <q> <r> <Q> <R> <E> …   `callLoop` on sizes (generated-code suite harness/gen/suites/c12.py)
 Program: opcode c, c%4 = 0 write, 1 writeByte(c), 2 writeString, 3 reset; write/writeString
 are followed by a 3-byte big-endian length (missing bytes = 0, taken mod 2^21); content byte j of the op at
 program offset p is (13p + j) mod 256.
@@ -103,6 +105,29 @@ def stepOutBuf (op : String) (args : List String) : Option String :=
             else if kind == "stomp" || kind == "looppub" then some (stompPublisher q)
             else none
     let o := sendOnly t (c12ParseN req)
+    pure s!"sent={if o.sent then "y" else "n"} res={c12ErrName o.res}"
+  | "c12seq", [_, _kind, l, st] => do
+    -- steps  <ctx>:<size>:<op>  ctx s(ame)/c(lone)/f(resh), size in bytes, op r(equest)/o(neway)
+    let L ← l.toNat?
+    let raw ← (st.splitOn ",").mapM fun x =>
+      match x.splitOn ":" with
+      | [c, sz, o] => do
+        let n ← sz.toNat?
+        pure (c, n, o == "o")
+      | _ => none
+    -- op ids: the shared context has id 0, every clone / fresh context a new one
+    let steps := (raw.zipIdx).map fun ((c, n, o), i) => SeqStep.mk (if c == "s" then 0 else i + 1) n o
+    let out := runSeq L [] steps
+    pure (",".intercalate (out.map fun (e, n) => s!"{c12ErrName e}/{n}"))
+  | "c12g", q :: r :: qsz :: rsz :: esz :: _ => do
+    -- generated-code call, sizes only: framed request / reply / error reply
+    let q ← q.toNat?
+    let r ← r.toNat?
+    let Q ← qsz.toNat?
+    let R ← rsz.toNat?
+    let E ← esz.toNat?
+    let one (n : Nat) : List Op := [Op.write (List.replicate (n - 4) 0)]
+    let o := callLoop q r (one Q) (one R) [one E]
     pure s!"sent={if o.sent then "y" else "n"} res={c12ErrName o.res}"
   | _, _ => none
 
